@@ -595,6 +595,88 @@ class _ReturnIfExp(ast.NodeTransformer):
         return node
 
 
+# ---------------------------------------------------------------------------
+# local aliases of final fields / never-rebound names:  `pool = self.__request_pool` ... `pool.stop()`
+# ---------------------------------------------------------------------------
+def _final_fields(cls):
+    """attributes of self that are bound only in __init__ (plain assignment), nowhere else in the class"""
+    in_init, elsewhere = set(), set()
+    for m in cls.body:
+        if not isinstance(m, ast.FunctionDef):
+            continue
+        for n in ast.walk(m):
+            tgt = None
+            if isinstance(n, ast.Attribute) and isinstance(n.ctx, (ast.Store, ast.Del)) and isinstance(n.value, ast.Name) and n.value.id == "self":
+                tgt = n.attr
+            elif isinstance(n, ast.Call) and isinstance(n.func, ast.Name) and n.func.id in ("setattr", "delattr"):
+                elsewhere.add("*")
+            if tgt is not None:
+                (in_init if m.name == "__init__" else elsewhere).add(tgt)
+    if "*" in elsewhere:
+        return set()
+    return in_init - elsewhere
+
+
+class _AliasSubst(ast.NodeTransformer):
+    def __init__(self, name, expr):
+        self.name, self.expr = name, expr
+
+    def visit_Name(self, node):
+        if node.id == self.name and isinstance(node.ctx, ast.Load):
+            return ast.copy_location(copy.deepcopy(self.expr), node)
+        return node
+
+
+def _propagate_in_function(fn, final):
+    """`a = self.F` (F final) or `a = p` (p a parameter never rebound) as a top-level statement of the body, `a` bound
+    nowhere else: later uses of `a` are replaced by the right-hand side.  -> number of aliases removed"""
+    params = set(x.arg for x in fn.args.posonlyargs + fn.args.args + fn.args.kwonlyargs)
+    stores = {}
+    for n in ast.walk(fn):
+        if isinstance(n, ast.Name) and isinstance(n.ctx, (ast.Store, ast.Del)):
+            stores[n.id] = stores.get(n.id, 0) + 1
+        elif isinstance(n, ast.ExceptHandler) and n.name:
+            stores[n.name] = stores.get(n.name, 0) + 1
+        elif isinstance(n, (ast.Global, ast.Nonlocal)):
+            for x in n.names:
+                stores[x] = stores.get(x, 0) + 2
+    done = 0
+    i = 0
+    while i < len(fn.body):
+        st = fn.body[i]
+        if isinstance(st, ast.Assign) and len(st.targets) == 1 and isinstance(st.targets[0], ast.Name):
+            a = st.targets[0].id
+            v = st.value
+            ok_value = (isinstance(v, ast.Attribute) and isinstance(v.value, ast.Name) and v.value.id == "self" and v.attr in final
+                        and "self" in params and stores.get("self", 0) == 0) or \
+                       (isinstance(v, ast.Name) and v.id in params and stores.get(v.id, 0) == 0)
+            if ok_value and stores.get(a, 0) == 1 and a not in params:
+                used_before = any(isinstance(n, ast.Name) and n.id == a for b in fn.body[:i] for n in ast.walk(b))
+                if not used_before:
+                    for k in range(i + 1, len(fn.body)):
+                        fn.body[k] = _AliasSubst(a, v).visit(fn.body[k])
+                    del fn.body[i]
+                    done += 1
+                    continue
+        i += 1
+    if done:
+        ast.fix_missing_locations(fn)
+    return done
+
+
+def propagate_aliases(tree):
+    n = 0
+    for st in tree.body:
+        if isinstance(st, ast.ClassDef):
+            final = _final_fields(st)
+            for m in st.body:
+                if isinstance(m, ast.FunctionDef) and m.name != "__init__":
+                    n += _propagate_in_function(m, final)
+        elif isinstance(st, ast.FunctionDef):
+            n += _propagate_in_function(st, set())
+    return n
+
+
 def deselect_module(tree):
     """Rewrite calls through a (callable, arguments) pair chosen by an if/else into the two direct calls (in place)."""
     n = 0
@@ -705,6 +787,7 @@ def import_foreign_helpers(trees):
 def inline_module(module_name, tree):
     """Expand new same-module helpers in `tree` (in place).  -> dict(expanded=..., removed=...) for evidence."""
     deselect_module(tree)
+    propagate_aliases(tree)
     known = known_functions().get(module_name, set())
     inl = _Inliner(module_name, tree, known)
     did = inl.run()
